@@ -6,6 +6,8 @@ import OFV.Model.C14Swap
 import OFV.Spec.C14
 import OFV.Proofs.C14Swap
 import OFV.Proofs.C14Gates
+import OFV.Proofs.C14Ffft
+import OFV.Proofs.C14Givens
 
 namespace OFV.C14
 open OFV.Model.C14 OFV.Spec.C14
@@ -49,12 +51,86 @@ theorem swap_network_spec (n : Nat) (offset : Bool) :
   · intro q hq p hp
     exact swap_network_pair_once n offset p q hp hq
 
+/-- The network with `offset=True` is the mirror image, in time and in space, of the network with
+`offset=False`: the same pairs of modes meet in reverse order, on the mirrored qubit positions
+`(n-2-a, n-1-a)`.  (This is what makes a "network, then network with offset=True on the reversed
+qubits" sequence a palindrome — see C15 `lsn_sym_step_mirrored`.) -/
+theorem swap_network_offset_mirror (n : Nat) :
+    (swapNetwork n true).2 = ((swapNetwork n false).2.reverse).map (mirror n) :=
+  swapNetwork_mirror n
+
 /-- non-vacuity: the contract is not trivially true (a log that misses a pair is rejected) and
 the Model's log for `n = 4` is the documented one -/
 example : swapOk 3 [2, 1, 0] [(0, 1, 0, 1), (0, 2, 1, 2)] = false := by decide
 example : (swapNetwork 4 false).2 =
     [(0, 1, 0, 1), (2, 3, 2, 3), (0, 3, 1, 2), (1, 3, 0, 1), (0, 2, 2, 3), (1, 2, 1, 2)] := by decide
 example : (swapNetwork 4 true).1 = [3, 2, 1, 0] := by decide
+
+/-! ## Givens-network primitives: structure of the emitted circuit -/
+
+/-- Structure theorem for `_slater_basis_change` / `prepare_slater_determinant`-style circuits whose
+description comes from the C11 schedule of `givens_decomposition_square` (every layer a sub-list of the
+rotations of one iteration `k`; in any order of layers, so also for the `reversed(...)` the code applies):
+the emitted operations are `Ryxxy` on ADJACENT qubits `(a, a+1)` inside the register followed by a `Z**φ`
+on the upper one, never an `X`, and the rotations of one layer act on pairwise DISJOINT qubit pairs — the
+layers can be executed in parallel on a linear array. -/
+theorem slater_circuit_structure (n : Nat) (desc : List (List (Option (Nat × Nat × Nat))))
+    (h : FromSquareSchedule n desc) :
+    (∀ o ∈ givensOps n desc, match o with
+      | .x _ => False
+      | .ryxxy a b _ => b = a + 1 ∧ b < n
+      | .zpow b _ => 0 < b ∧ b < n) ∧
+    (∀ layer ∈ desc, ∀ a b p a' b' p', some (a, b, p) ∈ layer → some (a', b', p') ∈ layer →
+      (a, b) ≠ (a', b') → b + 2 ≤ b' ∨ b' + 2 ≤ b) := by
+  constructor
+  · intro o ho
+    unfold givensOps at ho
+    rw [List.mem_flatMap] at ho
+    obtain ⟨layer, hl, ho⟩ := ho
+    rw [List.mem_flatMap] at ho
+    obtain ⟨op, hop, ho⟩ := ho
+    obtain ⟨k, hk⟩ := h layer hl
+    obtain ⟨a, b, p, rfl, hab⟩ := hk op hop
+    obtain ⟨h1, h2⟩ := slaterLayerPairs_adjacent n k a b hab
+    simp only [List.mem_cons, List.not_mem_nil, or_false] at ho
+    rcases ho with rfl | rfl
+    · exact ⟨h1, h2⟩
+    · exact ⟨by omega, h2⟩
+  · intro layer hl a b p a' b' p' h1 h2 hne
+    obtain ⟨k, hk⟩ := h layer hl
+    obtain ⟨a1, b1, p1, e1, m1⟩ := hk _ h1
+    obtain ⟨a2, b2, p2, e2, m2⟩ := hk _ h2
+    simp only [Option.some.injEq, Prod.mk.injEq] at e1 e2
+    obtain ⟨rfl, rfl, rfl⟩ := e1
+    obtain ⟨rfl, rfl, rfl⟩ := e2
+    exact slaterLayerPairs_disjoint n k _ _ _ _ m1 m2 hne
+
+/-- non-vacuity: the full schedule for `n = 4` is such a description (and is not empty) -/
+example : slaterSchedulePairs 4 = [[(2, 3)], [(1, 2)], [(0, 1), (2, 3)], [(1, 2)], [(2, 3)]] := by decide
+
+/-! ## ffft: Cooley–Tukey index recursion (partial: exponents, not the unitary) -/
+
+/-- `ffft_spec_partial`.  For EVERY factor list (prime or not, any order) the index recursion of
+`_ffft` — `_permute` with `i ↦ (i % ny)·nx + i / ny`, the `_TwiddleGate(x·y, n)` exponents and the two
+layers of sub-transforms — produces the discrete Fourier exponent table: `ctExp factors k j ≡ k·j (mod n)`,
+`n = ∏ factors`.  Full statement (NOT proved): the circuit unitary `U` of `ffft` satisfies
+`U a†_k U⁻¹ = n^{-1/2} Σ_j e^{-2πi k j / n} a†_j`; what is missing is that every emitted gate
+(`F0`, `_TwiddleGate`, the FSWAP permutation networks, the prime-size `bogoliubov_transform`) acts on the
+single-particle coefficients as `ctExp` assumes — checked numerically by the harness (oracle). -/
+theorem ffft_spec_partial (factors : List Nat) (k j : Nat) (hj : j < listProd factors) :
+    ctExp factors k j % listProd factors = (k * j) % listProd factors :=
+  ctExp_modEq factors k j hj
+
+/-- the factor list the Model uses (ascending trial division, mirrors `factorint`) multiplies to `n`,
+so the table exported to the harness is the DFT table for every `n ≥ 1` -/
+theorem ffft_table_is_dft (n k j : Nat) (hn : 1 ≤ n) (hj : j < n) :
+    ctExp (primeFactors n n) k j % n = (k * j) % n := by
+  have hp := primeFactors_prod n n (Nat.le_refl n) hn
+  have := ffft_spec_partial (primeFactors n n) k j (by rw [hp]; exact hj)
+  rwa [hp] at this
+
+example : ctExp [2, 3] 4 5 = 8 ∧ 8 % 6 = (4 * 5) % 6 := by decide
+example : primeFactors 12 12 = [2, 2, 3] := by decide
 
 /-! ## gate algebra (all rational points `(c, s)` of the unit circle; `cr2 p`, `an2 p` are the
 Jordan–Wigner matrices of `a†_p`, `a_p` on two modes computed from the Spec action `actF`) -/
@@ -179,6 +255,32 @@ theorem quadratic_spectral (r w1 c0 s0 c1 s1 : Rat) (u : GQ) (hu : u * GQ.conj u
   rw [identity4]
   unfold quadP00 quadP11 quadPpm quadraticGenerator quadratic zero4 id4
   refine ⟨?_, ?_, ?_, ?_, ?_, ?_⟩ <;> mat_unfold <;> mat_entries
+
+/-- Cubic gate, GENERAL weights: `qubit_generator_matrix` is the Jordan–Wigner image (through the Spec, three
+modes) of `w0·G₀ + w1·G₁ + w2·G₂ + h.c.` for the `fermion_generator_components` extracted from the live
+source (`a†₀a₀a†₁a₂`, `−a†₀a†₁a₁a₂`, `a†₀a₁a†₂a₂`). -/
+theorem cubic_generator_is_jw (w0 w1 w2 : GQ) :
+    let half := Mat.add (Mat.add (Mat.smul w0 (opMat3 (OFV.Generated.C14.cubicComponents.getD 0 [])))
+      (Mat.smul w1 (opMat3 (OFV.Generated.C14.cubicComponents.getD 1 []))))
+      (Mat.smul w2 (opMat3 (OFV.Generated.C14.cubicComponents.getD 2 [])))
+    cubicGenerator w0 w1 w2 = Mat.add half (Mat.dagger half) := by
+  rw [cubicComp0, cubicComp1, cubicComp2, cubicGenerator_lit]
+  unfold e65 e63 e53
+  mat_unfold
+  mat_entries
+
+/-- Eigen-structure of the cubic gate for general weights, without eigenvalues: the 3×3 block `M` that
+`_eigen_components` hands to `numpy.linalg.eigh` is Hermitian and satisfies its characteristic equation
+`M³ = (|w0|²+|w1|²+|w2|²)·M + 2Re(w0 w̄1 w2)·1`, so `exp(−itM)` is a polynomial of degree ≤ 2 in `M` with
+coefficients determined by the three real roots of `λ³ − sλ − d` (the exponents of the eigen-components). -/
+theorem cubic_block_characteristic (w0 w1 w2 : GQ) :
+    Mat.dagger (cubicBlock w0 w1 w2) = cubicBlock w0 w1 w2 ∧
+    Mat.mul (cubicBlock w0 w1 w2) (Mat.mul (cubicBlock w0 w1 w2) (cubicBlock w0 w1 w2)) =
+      Mat.add (Mat.smul (GQ.ofRat (w0.normSq + w1.normSq + w2.normSq)) (cubicBlock w0 w1 w2))
+        (Mat.smul (w0 * GQ.conj w1 * w2 + GQ.conj (w0 * GQ.conj w1 * w2)) [[1, 0, 0], [0, 1, 0], [0, 0, 1]]) := by
+  unfold cubicBlock
+  refine ⟨?_, ?_⟩ <;> mat_unfold <;> mat_entries
+  all_goals (simp [GQ.normSq]; try ring)
 
 /-- non-vacuity: the hypotheses are satisfiable by non-trivial rational angles -/
 example : (3/5 : Rat) * (3/5) + (4/5) * (4/5) = 1 := by norm_num
